@@ -543,6 +543,25 @@ func c01CheckMisc(c c01MiscCase) engine.Result {
 					}
 				}
 			}
+			// shifted copies: the same content cut out of a stream 1..3 bytes early or late, the gap filled with
+			// 0xFF / 0x00 / 0x47 (a comparison that skips "padding" at either end takes these for equal)
+			for sh := 1; sh <= 3; sh++ {
+				for _, pad := range [...]byte{0xFF, 0x00, 0x47} {
+					var left, right packet.Packet
+					for i := range left {
+						left[i], right[i] = pad, pad
+					}
+					copy(left[:188-sh], base[sh:])
+					copy(right[sh:], base[:188-sh])
+					for _, pair := range [][2]*packet.Packet{{&left, &right}, {&base, &left}, {&base, &right}} {
+						res.Evals++
+						want := *pair[0] == *pair[1]
+						if packet.Equal(pair[0], pair[1]) != want || pair[0].Equals(pair[1]) != want || pair[1].Equals(pair[0]) != want {
+							res.Failf("Equal|shifted-copies", "fill %d, shift %d, padding %#x: Equal %v Equals %v/%v, bytes equal: %v", c.N, sh, pad, packet.Equal(pair[0], pair[1]), pair[0].Equals(pair[1]), pair[1].Equals(pair[0]), want)
+						}
+					}
+				}
+			}
 		case "CopyPackets":
 			var in []*packet.Packet
 			var snap []packet.Packet
